@@ -29,7 +29,13 @@ structure Conn where
   stalled   : Bool := false        -- the harness blocks this connection's writer
   failNext  : Bool := false        -- the next write fails
   written   : List Update := []    -- events fully written to the response
-  done      : Bool := false        -- handler returned
+  exited    : Bool := false        -- the handler loop returned (shutdown pending or done)
+  done      : Bool := false        -- shutdown completed
+  joinedAt  : Nat := 0             -- ghost: number of accepted updates when the connection was indexed
+  replayed  : List Update := []    -- ghost: the stored updates negotiated for replay (before filtering)
+  shutdownOpen : Bool := false     -- ghost: the hub was open when this connection was shut down
+  epoch     : Nat := 0             -- the hub incarnation (restarts so far) this connection belongs to
+  enq       : List Update := []    -- ghost: everything ever put into the channel
   deriving Repr
 
 structure Metrics where
@@ -49,8 +55,13 @@ structure HubSt where
   conns    : List Conn := []       -- every connection ever accepted, by label
   index    : List Nat := []        -- labels in the transport's subscriber list (index order)
   closed   : Bool := false
+  epoch    : Nat := 0              -- restarts so far
   uuid     : Nat := 0              -- calls of uuid.NewV4 so far
   metrics  : Metrics := {}
+  accepted : List Update := []     -- ghost: every update a transport Dispatch accepted, in order
+  events   : List (Nat × Str × Bool) := []  -- ghost: subscription events dispatched (label, selector, active)
+  okPubs   : Nat := 0              -- ghost: publish requests answered 200
+  openStreams : Int := 0           -- ghost: accepted connections whose handler has not finished shutdown
   deriving Repr
 
 def hexDigitLower (n : Nat) : Char := if n < 10 then Char.ofNat (48 + n) else Char.ofNat (87 + n)
@@ -71,7 +82,7 @@ def Conn.receives (c : Conn) : Bool := !c.closedOut
     (flag set and channel closed; what is buffered stays readable). -/
 def Conn.enqueue (cap : Nat) (c : Conn) (u : Update) : Conn × Bool :=
   if c.closedOut then (c, false)
-  else if c.out.length < cap then ({ c with out := c.out ++ [u] }, true)
+  else if c.out.length < cap then ({ c with out := c.out ++ [u], enq := c.enq ++ [u] }, true)
   else ({ c with closedOut := true }, false)
 
 def Conn.matches (M : Str → Str → Bool) (c : Conn) (u : Update) : Bool :=
@@ -96,7 +107,7 @@ def HubSt.dispatch (M : Str → Str → Bool) (st : HubSt) (u : Update) : HubSt 
     | .local => st
   let conns := st.conns.map (fun c =>
     if st.index.contains c.label && c.matches M u then (c.enqueue st.cap u).1 else c)
-  ({ st with conns := conns, lastEventID := u.id }, some u.id)
+  ({ st with conns := conns, lastEventID := u.id, accepted := st.accepted ++ [u] }, some u.id)
 
 /-! ### subscription events (subscribe.go `dispatchSubscriptionUpdate`) -/
 
@@ -131,7 +142,10 @@ def subscriptionUpdate (s : Subscription) : Update :=
 
 def HubSt.subscriptionEvents (M : Str → Str → Bool) (st : HubSt) (c : Conn) (active : Bool) : HubSt :=
   if !st.cfg.subscriptions then st else
-  (subDocsOf st.cfg M c [] active).foldl (fun st s => (st.dispatch M (subscriptionUpdate s)).1) st
+  (subDocsOf st.cfg M c [] active).foldl (fun st s =>
+    match st.dispatch M (subscriptionUpdate s) with
+    | (st', some _) => { st' with events := st'.events ++ [(c.label, s.topic, active)] }
+    | (st', none) => st') st
 
 /-! ### the handler loop at quiescence -/
 
@@ -139,20 +153,20 @@ def HubSt.subscriptionEvents (M : Str → Str → Bool) (st : HubSt) (c : Conn) 
     write ends the handler; an empty closed channel ends it too. Returns the connection and
     whether the handler returned in this step. -/
 def Conn.pump (c : Conn) : Conn :=
-  if c.done then c
+  if c.exited then c
   else if c.stalled then
     -- the handler took the first buffered update (if any) and is blocked writing it
     match c.inflight, c.out with
     | none, u :: rest => { c with inflight := some u, out := rest }
-    | none, [] => if c.closedOut then { c with done := true } else c
+    | none, [] => if c.closedOut then { c with exited := true } else c
     | _, _ => c
   else
     let pending := (match c.inflight with | some u => [u] | none => []) ++ c.out
     if c.failNext && pending != [] then
-      { c with inflight := none, out := c.out.drop (if c.inflight.isSome then 0 else 1), failNext := false, done := true }
+      { c with inflight := none, out := c.out.drop (if c.inflight.isSome then 0 else 1), failNext := false, exited := true }
     else
       let c := { c with inflight := none, out := [], written := c.written ++ pending }
-      if c.closedOut then { c with done := true } else c
+      if c.closedOut then { c with exited := true } else c
 
 /-- `shutdown` of every handler that returned but is not yet cleaned up: Disconnect,
     RemoveSubscriber, `active=false` events, gauge decrement. -/
@@ -160,23 +174,26 @@ def HubSt.shutdown (M : Str → Str → Bool) (st : HubSt) (label : Nat) : HubSt
   match getConn st.conns label with
   | none => st
   | some c =>
-    let st := { st with conns := updConn st.conns label (fun c => { c with closedOut := true, done := true }) }
-    let st := if st.closed then st else { st with index := st.index.filter (· != label) }
-    let st := st.subscriptionEvents M c false
-    { st with metrics := { st.metrics with gauge := st.metrics.gauge - 1 } }
+    if c.done then st else
+    -- a connection that survived a restart still talks to the old (closed) hub and transport
+    let hubOpen := !st.closed && c.epoch == st.epoch
+    let st := { st with conns := updConn st.conns label (fun c =>
+                  { c with closedOut := true, exited := true, done := true, shutdownOpen := hubOpen }) }
+    let st := if hubOpen then { st with index := st.index.filter (· != label) } else st
+    let st := if hubOpen then st.subscriptionEvents M c false else st
+    { st with metrics := { st.metrics with gauge := st.metrics.gauge - 1 }, openStreams := st.openStreams - 1 }
 
-/-- Run every handler to quiescence. Handlers that finish are shut down (in label order); their
+/-- Run every handler to quiescence. Handlers that returned are shut down (in label order); their
     `active=false` events may feed other connections, hence the fuel. -/
 def HubSt.settle (M : Str → Str → Bool) : Nat → HubSt → HubSt
   | 0, st => st
   | fuel + 1, st =>
-    let before := st.conns.filter (·.done) |>.map (·.label)
     let st := { st with conns := st.conns.map Conn.pump }
-    let finished := (st.conns.filter (·.done)).map (·.label) |>.filter (fun l => !before.contains l)
-    if finished == [] then
-      if st.conns.all (fun c => c.done || c.stalled || (c.out == [] && c.inflight.isNone)) then st
+    let pending := (st.conns.filter (fun c => c.exited && !c.done)).map (·.label)
+    if pending == [] then
+      if st.conns.all (fun c => c.exited || c.stalled || (c.out == [] && c.inflight.isNone)) then st
       else HubSt.settle M fuel st
-    else HubSt.settle M fuel (finished.foldl (HubSt.shutdown M) st)
+    else HubSt.settle M fuel (pending.foldl (HubSt.shutdown M) st)
 
 /-! ### operations -/
 
@@ -191,7 +208,7 @@ def HubSt.publish (M : Str → Str → Bool) (tok : Str → Option Claims) (st :
   | .accepted u =>
     match st.dispatch M u with
     | (st', some id) =>
-      let st' := { st' with metrics := { st'.metrics with updates := st'.metrics.updates + 1 } }
+      let st' := { st' with metrics := { st'.metrics with updates := st'.metrics.updates + 1 }, okPubs := st'.okPubs + 1 }
       (st'.settle M (st'.conns.length + 2), { status := 200, body := id })
     | (st', none) => (st', { status := 500, body := [] })     -- PublishHandler panics on a closed transport
 
@@ -231,7 +248,7 @@ def HubSt.connect (M : Str → Str → Bool) (tok : Str → Option Claims) (st :
   | .accepted c priv leid =>
     let conn : Conn := { label := label, sid := sid, sels := r.topics, allowed := priv,
                          payload := (match c with | some c => c.mercure.payload | none => []),
-                         reqLEID := leid, respLEID := none }
+                         reqLEID := leid, respLEID := none, epoch := st.epoch }
     let st := st.subscriptionEvents M conn true
     if st.closed then
       -- AddSubscriber fails: 503, active=false events (which fail too on a closed transport)
@@ -243,10 +260,11 @@ def HubSt.connect (M : Str → Str → Bool) (tok : Str → Option Claims) (st :
           | .local => (some earliest, conn)
           | .bolt =>
             let (rid, ups) := negotiate st.db leid
-            (some rid, conn.replay M st.cap ups)
-      let conn := { conn with respLEID := resp }
+            (some rid, { conn.replay M st.cap ups with replayed := ups })
+      let conn := { conn with respLEID := resp, joinedAt := st.accepted.length }
       let st := { st with conns := st.conns ++ [conn], index := st.index ++ [label],
-                          metrics := { st.metrics with total := st.metrics.total + 1, gauge := st.metrics.gauge + 1 } }
+                          metrics := { st.metrics with total := st.metrics.total + 1, gauge := st.metrics.gauge + 1 },
+                          openStreams := st.openStreams + 1 }
       (st.settle M (st.conns.length + 2), { status := 200, body := [], respLEID := resp })
 
 /-- The client goes away (request context cancelled). -/
@@ -254,8 +272,8 @@ def HubSt.clientClose (M : Str → Str → Bool) (st : HubSt) (label : Nat) : Hu
   match getConn st.conns label with
   | none => st
   | some c =>
-    if c.done then st else
-    let st := { st with conns := updConn st.conns label (fun c => { c with stalled := false }) }
+    if c.exited then st else
+    let st := { st with conns := updConn st.conns label (fun c => { c with stalled := false, inflight := none }) }
     let st := st.shutdown M label
     st.settle M (st.conns.length + 2)
 
@@ -277,9 +295,50 @@ def HubSt.close (M : Str → Str → Bool) (st : HubSt) : HubSt :=
 def HubSt.restart (M : Str → Str → Bool) (st : HubSt) : HubSt :=
   let st := st.close M
   let last := match st.db.getLast? with | some e => e.2.id | none => earliest
-  { st with closed := false, index := [],
+  { st with closed := false, index := [], epoch := st.epoch + 1,
             db := (match st.kind with | .bolt => st.db | .local => []),
             lastEventID := (match st.kind with | .bolt => last | .local => earliest) }
+
+/-! ### histories -/
+
+inductive HubOp where
+  | publish (r : PubReq)
+  | connect (label : Nat) (r : SubReq)
+  | clientClose (label : Nat)
+  | stall (label : Nat) (b : Bool)
+  | failNext (label : Nat)
+  | close
+  | restart
+  deriving Repr
+
+/-- `tokP` / `tokS`: token validation under the publisher / subscriber key. -/
+def HubSt.step (M : Str → Str → Bool) (tokP tokS : Str → Option Claims) (st : HubSt) : HubOp → HubSt
+  | .publish r => (st.publish M tokP r).1
+  | .connect l r => (st.connect M tokS l r).1
+  | .clientClose l => st.clientClose M l
+  | .stall l b => st.setStalled M l b
+  | .failNext l => st.failNextWrite l
+  | .close => st.close M
+  | .restart => st.restart M
+
+def HubSt.run (M : Str → Str → Bool) (tokP tokS : Str → Option Claims) (st : HubSt) (ops : List HubOp) : HubSt :=
+  ops.foldl (HubSt.step M tokP tokS) st
+
+/-- A fresh hub. -/
+def HubSt.init (cfg : HubCfg) (kind : Kind) (size cap : Nat) : HubSt :=
+  { cfg := cfg, kind := kind, size := size, cap := cap }
+
+def HubOp.connectLabel : HubOp → Option Nat
+  | .connect l _ => some l
+  | _ => none
+
+/-- The harness gives every connection its own label. -/
+def FreshLabels (ops : List HubOp) : Prop := (ops.filterMap HubOp.connectLabel).Nodup
+
+/-- Every state reachable by a history of public operations from a fresh hub. -/
+def HubSt.reach (M : Str → Str → Bool) (tokP tokS : Str → Option Claims) (cfg : HubCfg) (kind : Kind)
+    (size cap : Nat) (ops : List HubOp) : HubSt :=
+  HubSt.run M tokP tokS (HubSt.init cfg kind size cap) ops
 
 /-! ### subscription API (subscription.go) -/
 
